@@ -111,6 +111,12 @@ theorem roundPair_table : ∀ (m : Mode) (neg : Bool) (l r : Fin 10) (tz : Bool)
   intro m neg l r tz
   cases m <;> cases neg <;> cases tz <;> revert l r <;> decide
 
+/-- the trailing-zeros flag only matters where `needs_trailing_zeros` says so -/
+theorem roundPair_tz_guard : ∀ (m : Mode) (neg : Bool) (l low : Fin 10) (x : Bool),
+    roundPair m neg l low (needsTrailingZeros m low && x) = roundPair m neg l low x := by
+  intro m neg l low x
+  cases m <;> cases neg <;> cases x <;> revert l low <;> decide
+
 theorem wsrGreater_spec (m : Mode) (neg : Bool) (n k : Nat) (hk : 1 ≤ k) :
     ofDigitsLE (wsrGreater m neg (digitsLE n) k) = roundNat m neg n k := by
   obtain ⟨j, rfl⟩ : ∃ j, k = j + 1 := ⟨k - 1, by omega⟩
